@@ -38,8 +38,8 @@ def merge_sym(p):
     bins = named_bins(layout, p["kind"], p.get("chrom_names"))
     tables, uris = [], []
     for i, K in enumerate(Ks):
-        b1, b2, v = sym_pixels(n, K, upper, prefix=f"t{i}_")
-        w = [sym_int(f"t{i}_w{q}", 1, 9) for q in range(K)]
+        b1, b2, v = sym_pixels(n, K, upper, prefix=f"t{i}_", vlo=p.get("vlo", 1), vhi=p.get("vhi", 9))
+        w = [sym_int(f"t{i}_w{q}", p.get("vlo", 1), p.get("vhi", 9)) for q in range(K)]
         wdt = "int64"
         if p.get("mixed") and i == len(Ks) - 1:
             # the last input stores w as float64 with half-integer values: the output column must be wide enough for every input
@@ -55,6 +55,11 @@ def merge_sym(p):
     cover("shared_pixel", or_(*[and_(x == y, xx == yy) for x, xx in zip(tables[0][0], tables[0][1]) for y, yy in zip(tables[-1][0], tables[-1][1])])
           if len(tables) > 1 and Ks[0] and Ks[-1] else False)
     cover("small_buffer", buf < max(Ks) if max(Ks) > 1 else True)
+    if p.get("vlo", 1) <= 0:
+        allv = [x for (_, _, c) in tables for x in c["count"]]
+        cover("stored_zero", or_(*[x == 0 for x in allv]))
+        cover("counts_cancel", or_(*[and_(a1 == c1, a2 == c2, x + y == 0, x != 0) for a1, a2, x in zip(tables[0][0], tables[0][1], tables[0][2]["count"])
+                                     for c1, c2, y in zip(tables[-1][0], tables[-1][1], tables[-1][2]["count"])]) if len(tables) > 1 else False)
     if known_active("F14"):
         pass
     sc.merge_coolers(out, uris, mergebuf=buf, columns=["count", "w"], agg=agg)
@@ -132,6 +137,9 @@ def _merge_cases(tier):
     out.append(dict(layout=[2], kind="fixed", Ks=[1, 1, 1], upper=True, agg="sum", mixed=True))
     # chromosome names whose order in the inputs is not the lexicographic one
     out.append(dict(layout=[1, 2], kind="variable", Ks=[1, 1], upper=True, agg="sum", chrom_names=["chr2", "chr10"]))
+    # signed values: explicit zeros and counts that cancel across inputs are pixels like any other (every requested column is kept)
+    out.append(dict(layout=[2], kind="fixed", Ks=[1, 1], upper=True, agg="sum", vlo=-2, vhi=2))
+    out.append(dict(layout=[2], kind="fixed", Ks=[1, 1], upper=False, agg="max", vlo=-2, vhi=2))
     return out
 
 
@@ -253,7 +261,7 @@ def _compat_cases(tier):
 
 
 CHECKS = [
-    Check("merge", _merge_cases, merge_sym, merge_real, labels=("empty_input", "shared_pixel", "small_buffer"),
+    Check("merge", _merge_cases, merge_sym, merge_real, labels=("empty_input", "shared_pixel", "small_buffer", "stored_zero", "counts_cancel"),
           doc="merge_coolers on k arbitrary valid inputs (built directly in the store), symbolic buffer size: per-pixel exact aggregate, "
               "nothing missing/extra, schema-valid output, total = sum of totals",
           bounds=dict(quick="k<=3 inputs, K<=2 pixels each, n<=3 bins, mergebuf 1..total+1, sum and max", thorough="k<=3, K<=3 each, n<=4"),
